@@ -103,6 +103,17 @@ def cases(rng, tier):
                     msg = b"\x00\x01\x00\x00\x00\x00\x00\x01\x00\x00\x00\x00" + b"\x00" + ty.to_bytes(2, "big") + b"\x00\x01\x00\x00\x00\x3c" + len(rd).to_bytes(2, "big") + rd
                     out.append("PARSEM " + msg.hex())
                     out.append("PARSEM " + (msg + b"\x00\x00\x01\x00\x01\x00\x00\x00\x3c\x00\x04\x01\x02\x03\x04").hex())
+    # EDNS options with well-known codes and small structured payloads (client subnet with every family / prefix / address
+    # length combination up to 4 bytes, cookies, padding, ...): options are opaque to a parser, whatever their code
+    payloads = [b"", b"\x00", b"\x00\x01", b"\x00\x01\x00", b"\xff" * 8, b"\x00" * 16]
+    for fam in (0, 1, 2, 3):
+        for src in (0, 1, 8, 24, 32, 128, 255):
+            for alen in (0, 1, 4):
+                payloads.append(bytes([0, fam, src, 0]) + b"\xc0" * alen)
+    for code in list(range(0, 21)) + [65001, 65535]:
+        for pl in payloads:
+            opt = b"\x00\x00\x29\x04\xd0\x00\x00\x00\x00" + (4 + len(pl)).to_bytes(2, "big") + code.to_bytes(2, "big") + len(pl).to_bytes(2, "big") + pl
+            out.append("PARSEM " + (b"\x00\x01\x00\x00\x00\x00\x00\x00\x00\x00\x00\x01" + opt).hex())
     # random bytes
     for _ in range(1500 if tier == "quick" else 30000):
         n = rng.choice([0, 1, 5, 11, 12, 13, 20, 40, 100])
